@@ -103,6 +103,26 @@ def root_local(fn, l):
     return users or org.locals
 
 
+def forwards_to_ord(prog, fn, c):
+    """sort_by(|a, b| a.cmp(b)) / a.partial_cmp(b).unwrap(): a custom comparator that is just Tx's own ordering"""
+    if c.short not in ('sort_by', 'sort_unstable_by') or len(c.args) < 2:
+        return False
+    cl = op_local(c.args[1])
+    g = None
+    for (bb, idx, kind, node) in fn.defs.get(cl, []) if cl is not None else []:
+        if kind == 'stmt' and node['r']['rv'] == 'agg' and node['r']['kind'].startswith('closure:'):
+            g = prog.by_crate[fn.crate].get(node['r']['kind'][8:])
+    if g is None:
+        return False
+    cmps = [x for x in g.calls if x.callee in ('<%s as std::cmp::Ord>::cmp' % TX, '<%s as std::cmp::PartialOrd>::partial_cmp' % TX)]
+    others = [x for x in g.calls if x not in cmps and x.short not in ('unwrap', 'expect', 'deref')]
+    if len(cmps) != 1 or others:
+        return False
+    a0 = mir.provenance(g, cmps[0].args[0]).params
+    a1 = mir.provenance(g, cmps[0].args[1]).params
+    return a0 == {2} and a1 == {3}
+
+
 def r7b(prog, rep):
     hosts = []
     for fn in prog.product_fns():
@@ -118,7 +138,8 @@ def r7b(prog, rep):
                  and root_local(fn, c.args[0]) & vec_roots]
         k = '%s|sort-dominates-split' % fn.name
         good = [c for c in sorts if c.short in SORTS and fn.dominates(c.bb, split.bb)]
-        custom = [c for c in sorts if c.short in CUSTOM_SORTS]
+        custom = [c for c in sorts if c.short in CUSTOM_SORTS and not forwards_to_ord(prog, fn, c)]
+        good += [c for c in sorts if c.short in CUSTOM_SORTS and forwards_to_ord(prog, fn, c) and fn.dominates(c.bb, split.bb)]
         if custom:
             rep.violation('R7b', k + '|custom-comparator', where=custom[0].where(), fn=fn.name,
                           detail='the transactions are sorted with a custom comparator (%s) instead of Tx\'s Ord (settlement date, read index)' % custom[0].short)
@@ -183,7 +204,9 @@ def r7c(prog, rep):
     p = prog.fn('portfolio::io::tx_csv::parse_tx_csv')
     if not rep.anchor('parse_tx_csv', p):
         return
-    mk = [c for c in p.calls if c.callee.endswith('tx_csv::csvtx_from_csv_values')]
+    from props import anchors
+    rd = anchors.csv_reader(prog)
+    mk = [c for c in p.calls if c.callee == (rd.name if rd else 'portfolio::io::tx_csv::csvtx_from_csv_values')]
     if not rep.anchor('record -> CsvTx conversion call inside parse_tx_csv', mk):
         return
     c = mk[0]
